@@ -85,6 +85,9 @@ def collision_doc(group: list, scope: str) -> dict:
     elif scope == "tags":
         for i, n in enumerate(group):
             d["paths"][f"/p{i}"] = {"get": {"operationId": f"op_{i}", "tags": [n], "responses": ok}}
+    elif scope == "enum_members":
+        S["E"] = {"type": "string", "enum": list(group)}
+        S["Holder"] = {"type": "object", "properties": {"e": {"$ref": "#/components/schemas/E"}}}
     elif scope == "schema_vs_inline":
         S[group[0]] = {"type": "object", "properties": {"a": {"type": "string"}}}
         S["Holder"] = {"type": "object", "properties": {"x": {"type": "object", "title": group[1], "properties": {"b": {"type": "integer"}}}}}
@@ -123,13 +126,16 @@ def main() -> int:
             j = run.job(d, want=["manifest", "tree"], cfg={"field_prefix": pre, "literal_enums": ni % 5 == 4})
             info[j["id"]] = ("name", X, slot, pre)
             jobs.append(j)
-    scopes = ["properties", "params_same_location", "params_across_locations", "schemas", "enum_schemas", "operation_ids", "tags", "schema_vs_inline"]
+    scopes = ["properties", "params_same_location", "params_across_locations", "schemas", "enum_schemas", "operation_ids", "tags", "schema_vs_inline", "enum_members"]
+    ENUM_GROUPS = [["first", "VALUE_2", "3rd", "last"], ["value_1", "*", "all"], ["VALUE_0", "", "z"], ["a", "VALUE_3", "b", "4th"], ["a-b", "a_b"], ["a", "A"], ["x y", "x_y", "q"], ["VALUE_1", "a", "1"], ["Value 1", "9"], ["ok", "OK", "Ok"]]
     for k in range(80 if quick else 1200):
         size = r.choice([2, 2, 3, 4])
         group = names.colliding_set(r, size)
         if r.random() < 0.3:
             group = r.choice([["FooBAR", "FooBar"], ["get-thing", "get_thing"], ["a-b", "a_b"], ["Abc", "abc"], ["x1", "x_1", "X1"], ["user id", "user_id", "userId", "UserID"], ["class", "class_"], ["type", "Type", "TYPE"], ["_a", "a"], ["a.b", "a b"]])
         scope = scopes[k % len(scopes)]
+        if scope == "enum_members":
+            group = ENUM_GROUPS[(k // len(scopes)) % len(ENUM_GROUPS)]
         if scope in ("schemas", "enum_schemas", "schema_vs_inline") and any(c in n for n in group for c in "/~#%"):
             continue
         j = run.job(collision_doc(group, scope), want=["manifest", "tree"], cfg={"field_prefix": prefixes[k % len(prefixes)]})
@@ -166,7 +172,7 @@ def main() -> int:
             ev.count("names_walked")
             if not ident_ok(nm):
                 vd.violation(f"invalid_identifier:{what}:{slot if kind == 'name' else 'collision_fallback'}", f"{what} name {nm!r} derived for {X!r} ({slot}) is not a valid non-keyword identifier", w)
-            elif not nfkc_stable(nm) and what in ("module", "tag", "class"):
+            elif not nfkc_stable(nm):
                 vd.violation(f"identifier_not_nfkc_stable:{what}", f"{what} name {nm!r} changes under NFKC normalisation (Python normalises identifiers, file names are not)", w)
         # ---- V2: path components + compile
         for rel in tree:
@@ -223,6 +229,14 @@ def main() -> int:
             elif slot == "operation_ids":
                 if len(man.get("endpoints") or []) + sum(1 for i in range(len(group)) if re.search(rf" /p{i}\b", diag_text)) < len(group):
                     vd.violation("dropped_without_diagnostic:operations", f"operations {group}: {len(man.get('endpoints') or [])} generated, rest not diagnosed", w)
+            elif slot == "enum_members":
+                e = next((e for e in (man.get("enums") or {}).values() if e["cls"] == "E"), None)
+                ev.count("enum_member_groups")
+                if e is None:
+                    if "E" not in diag_text and "/components/schemas/E" not in diag_text:
+                        vd.violation("dropped_without_diagnostic:enum", f"enum with values {group} not generated, no diagnostic", w)
+                elif isinstance(e.get("values"), dict) and len(e["values"]) < len(set(group)):
+                    vd.violation("merged:enum_members", f"values {group} became members {e['values']}", w)
             elif slot == "tags":
                 tags = {e["tag"] for e in man.get("endpoints") or []}
                 ev.count("tag_groups")
